@@ -136,6 +136,12 @@ class Ctx:
         rdir = os.path.join(EVID, "replays")
         lines = []
         # group violations by signature: one replay file per signature
+        import glob
+        for old in glob.glob(os.path.join(rdir, "%s-*.json" % self.pid)):
+            try:
+                os.unlink(old)
+            except OSError:
+                pass
         by_sig = {}
         for v in self.violations:
             key = json.dumps(v["signature"], sort_keys=True)
